@@ -1,5 +1,6 @@
 pub mod c01;
 pub mod compare;
+pub mod diff;
 pub mod expect;
 pub mod sqlcase;
 
@@ -47,11 +48,74 @@ pub fn dispatch(prop: &str, tier: &str) -> i32 {
             let chk = c01::ModelCheck::new("C01", c01::Focus::General, allowed_dev("C01"));
             crate::finish(&cfg, &chk, serde_json::json!({}))
         }
+        "C02" | "C03" | "C04" => {
+            let mut cfg = crate::base_cfg(prop, tier);
+            let (mode, runs, rule) = match prop {
+                "C02" => (diff::DiffMode::Optimizer, if quick { 4000 } else { 300_000 }, "one run = random tables + 6 generated queries executed twice in fresh worlds with identical knobs and scheduling policy, differing only in SET enable_optimizer; rows compared as bags (sortedness under ORDER BY, count only where the query is legitimately non-deterministic)"),
+                "C03" => (diff::DiffMode::Config, if quick { 2500 } else { 200_000 }, "one run = random tables + 6 generated statements (queries, CREATE TABLE AS, INSERT..SELECT followed by SELECT *) executed in the reference configuration (1 partition, batch 2048, canonical schedule) and in 2-3 random configurations (partitions 1-16, batch 1-8192, hash joins on/off, random policy); rows and reported counts compared"),
+                _ => (diff::DiffMode::Schedule, if quick { 2500 } else { 200_000 }, "one run = random tables + 6 generated statements executed under the canonical schedule and under 3 other scheduling policies (one with spurious/duplicate/delayed wake-ups), identical knobs; invariants: no lost wake-up (strict mode), step bound, same rows as the sequential run, finished tasks never polled again"),
+            };
+            cfg.runs = runs;
+            cfg.rule = format!("{rule}. Non-trivial = >=2 scheduling decisions with >1 runnable task and >=1 Pending poll, or >=1 fired fault; distinct = distinct (knobs, policy, event-trace digest).");
+            cfg.assumptions = vec!["the model evaluator is used only to classify a query as deterministic / count-only / may-error, never for expected rows".into()];
+            let chk = diff::DiffCheck::new(match prop { "C02" => "C02", "C03" => "C03", _ => "C04" }, mode);
+            crate::finish(&cfg, &chk, serde_json::json!({}))
+        }
         _ => {
             eprintln!("unknown property {prop}");
             2
         }
     }
+}
+
+/// Determinism self-test: run `n` C01-style worlds and print one digest per
+/// run (event trace + results). Two processes must print identical output.
+pub fn selftest_determinism(n: u64) -> i32 {
+    use crate::campaign::{Check, Stats};
+    let seed = std::env::var("VERIF_SEED").ok().and_then(|s| s.parse().ok()).unwrap_or(1u64);
+    let threads = std::env::var("VERIF_THREADS").ok().and_then(|s| s.parse().ok()).unwrap_or(16usize);
+    let root = crate::rng::Rng::new(seed).fork("selftest");
+    let results = std::sync::Mutex::new(std::collections::BTreeMap::new());
+    let next = std::sync::atomic::AtomicU64::new(0);
+    std::thread::scope(|s| {
+        for _ in 0..threads {
+            std::thread::Builder::new()
+                .stack_size(256 << 20)
+                .spawn_scoped(s, || {
+                    crate::sim::install_quiet_panic_hook();
+                    loop {
+                        let run = next.fetch_add(1, std::sync::atomic::Ordering::Relaxed);
+                        if run >= n {
+                            break;
+                        }
+                        let mut st = Stats::default();
+                        let chk: Box<dyn Check> = match run % 3 {
+                            0 => Box::new(c01::ModelCheck::new("C01", c01::Focus::General, Dev::default())),
+                            1 => Box::new(diff::DiffCheck::new("C04", diff::DiffMode::Schedule)),
+                            _ => Box::new(diff::DiffCheck::new("C03", diff::DiffMode::Config)),
+                        };
+                        let vs = chk.run_one(run, root.fork_idx("run", run), &mut st);
+                        let mut d = crate::rng::Digest::new();
+                        for k in &st.nontrivial {
+                            d.u64(*k);
+                        }
+                        d.u64(st.steps);
+                        d.u64(st.statements);
+                        d.u64(vs.len() as u64);
+                        for v in &vs {
+                            d.str(&v.class);
+                            d.u64(v.trace);
+                        }
+                        results.lock().unwrap().insert(run, d.0);
+                    }
+                })
+                .unwrap();
+        }
+    });
+    for (run, d) in results.into_inner().unwrap() {
+        println!("{run} {d:016x}");
+    }
+    0
 }
 
 pub fn replay_file(path: &str) -> i32 {
